@@ -296,6 +296,9 @@ def group(rep, model):
 
 
 def models_agree(ctx, models, at, nd, a0):
+    if models is not None and models[0] == 'map' and nd == 2 and models[1][0] == 'range':
+        # a comprehension over the signals: the same element-wise definition as zeros(...).tolist() + a full-range store
+        models = ('arr', ('call', 'zeros', (), ()), ((('lv', models[1], 0), models[2], T.TRUE),))
     if models is None or models[0] != 'arr':
         return False, f'self.models is not filled element-wise: {T.brief(models, 120) if models else None}'
     init, stores = models[1], models[2]
